@@ -6,7 +6,10 @@
 //! permuted registration) and read back: operations, every `$ref`, the
 //! component keys, byte equality; and `lookup_route` is asked for each
 //! endpoint's own witness request at that version.
-use dropshot::{ApiDescription, ApiEndpoint, ApiEndpointVersions, HttpError, HttpResponseOk, Path, Query, RequestContext};
+use dropshot::{
+    ApiDescription, ApiEndpoint, ApiEndpointVersions, HttpError, HttpResponseHeaders, HttpResponseOk, Path, Query,
+    RequestContext,
+};
 use dsverif::c05::mk_range;
 use dsverif::dynschema::{set_slot, set_slot_json, Dyn, Slot};
 use dsverif::router::{ctype_str, g_ep, gen_case, router_fns, template_vars, EpSpec, Obs};
@@ -124,6 +127,12 @@ async fn hq(_r: RequestContext<()>, _q: Query<Dyn<1>>) -> Result<HttpResponseOk<
     Ok(HttpResponseOk(()))
 }
 
+async fn hh(
+    _r: RequestContext<()>,
+) -> Result<HttpResponseHeaders<HttpResponseOk<()>, Dyn<2>>, HttpError> {
+    Ok(HttpResponseHeaders::new(HttpResponseOk(()), Dyn(Value::Null)))
+}
+
 fn def_json(refs: &[String]) -> Value {
     match refs.len() {
         0 => json!({"type": "string"}),
@@ -139,18 +148,22 @@ fn exec_deps(c: &DepsCase) -> Line {
         props.insert(format!("p{}", i), json!({"$ref": format!("#/components/schemas/{}", r)}));
         req.push(json!(format!("p{}", i)));
     }
-    let keys = catch(|| {
-        set_slot(
-            1,
-            Slot {
-                name: "Q".into(),
-                schema: serde_json::from_value(json!({"type": "object", "properties": props, "required": req})).unwrap(),
-                defs: c.deps_defs.iter().map(|(n, rs)| (n.clone(), serde_json::from_value(def_json(rs)).unwrap())).collect(),
-                referenceable: false,
-            },
-        );
+    let r = catch(|| {
+        let mk = |name: &str| Slot {
+            name: name.into(),
+            schema: serde_json::from_value(json!({"type": "object", "properties": props, "required": req})).unwrap(),
+            defs: c.deps_defs.iter().map(|(n, rs)| (n.clone(), serde_json::from_value(def_json(rs)).unwrap())).collect(),
+            referenceable: false,
+        };
+        set_slot(1, mk("Q"));
+        set_slot(2, mk("H"));
         let mut api: ApiDescription<()> = ApiDescription::new();
-        api.register(ApiEndpoint::new("q".to_string(), hq, Method::GET, "application/json", "/q", ApiEndpointVersions::All))
+        // the same definition graph behind a query parameter struct and
+        // behind a response-header struct
+        let q_ok = api
+            .register(ApiEndpoint::new("q".to_string(), hq, Method::GET, "application/json", "/q", ApiEndpointVersions::All))
+            .is_ok();
+        api.register(ApiEndpoint::new("h".to_string(), hh, Method::GET, "application/json", "/h", ApiEndpointVersions::All))
             .map_err(|e| e.to_string())
             .unwrap();
         let j = api.openapi("t", Version::new(1, 0, 0)).json().unwrap();
@@ -161,10 +174,22 @@ fn exec_deps(c: &DepsCase) -> Line {
             .map(|m| m.keys().filter(|k| k.starts_with("QD")).cloned().collect())
             .unwrap_or_default();
         keys.sort();
-        keys
+        let mut refs = vec![];
+        collect_refs(&j, &mut refs);
+        let mut refs: Vec<String> = refs
+            .into_iter()
+            .filter_map(|r| r.strip_prefix("#/components/schemas/").map(|s| s.to_string()))
+            .filter(|r| r.starts_with("QD"))
+            .collect();
+        refs.sort();
+        refs.dedup();
+        (keys, refs, q_ok)
     });
-    let (coq_keys, obs) = match &keys {
-        Ok(k) => (format!("(Some {})", g_list(k, |s| g_str(s))), json!({"keys": k})),
+    let (coq_keys, obs) = match &r {
+        Ok((k, refs, q_ok)) => (
+            format!("(Some ({}, {}, {}))", g_list(k, |s| g_str(s)), g_list(refs, |s| g_str(s)), g_bool(*q_ok)),
+            json!({"keys": k, "refs": refs, "query_registered": q_ok}),
+        ),
         Err(m) => ("None".to_string(), json!({"panic": m.chars().take(120).collect::<String>()})),
     };
     Line {
